@@ -124,8 +124,10 @@ def gen_plan(rng, tier="quick"):
     npos = int(np.prod([n for _, n in dims] or [1]))
     if rng.random() < 0.25 and npos > 1:
         recipe["data"]["zero_at"] = rng.randrange(npos)
-    if rng.random() < 0.2 and (cls == "exact" or op["m"] in ("hs", "tm01", "tp", "dp", "dm", "tm02")):
+    if rng.random() < 0.2 and (cls in ("exact", "sum")):
         recipe["dtype"] = "float32"
+    if rng.random() < 0.12 and npos > 1 and op["m"] not in O.PARTITIONS and not op["m"].startswith("fit"):
+        recipe["data"]["nan_at"] = rng.randrange(npos)     # a missing spectrum among the others
     sizes = dict((k, n) for k, n in dims)
     sizes["freq"] = recipe["nf"]
     if nd:
